@@ -454,6 +454,46 @@ func runLateGuard(c *Ctx) {
 				}
 			}
 		}
+		// both sides of a test panic: past that test the function cannot do anything but panic (a guard whose condition
+		// has become always true)
+		if fp := c.An.PathsOf(fi.SSA); fp != nil && fp.Unproven == "" {
+			for _, P := range fp.Paths {
+				if P.End != EndPanic || len(P.Conds) == 0 {
+					continue
+				}
+				k := len(P.Conds) - 1
+				ck := P.Conds[k]
+				if ck.Instr == nil {
+					continue
+				}
+				sibs, allPanic := 0, true
+				for _, Q := range fp.Paths {
+					if Q == P || len(Q.Conds) <= k || Q.Conds[k].Instr != ck.Instr || Q.Conds[k].Pol == ck.Pol || Q.Conds[k].T.Key() != ck.T.Key() {
+						continue
+					}
+					same := true
+					for i := 0; i < k; i++ {
+						if Q.Conds[i].Instr != P.Conds[i].Instr || Q.Conds[i].Pol != P.Conds[i].Pol {
+							same = false
+						}
+					}
+					if !same {
+						continue
+					}
+					sibs++
+					if !(Q.End == EndPanic && len(Q.Conds) == k+1) {
+						allPanic = false
+					}
+				}
+				if sibs > 0 && allPanic {
+					key := c.ipos(ck.Instr) + " both"
+					if !reported[key] {
+						reported[key] = true
+						msgs = append(msgs, fmt.Sprintf("%s: both outcomes of the test (%s) end in a panic at once: past it the function can only panic", c.ipos(ck.Instr), ck.Rel()))
+					}
+				}
+			}
+		}
 		if len(msgs) > 0 {
 			sort.Strings(msgs)
 			c.R.Refuted(rule, fi.Name, "order", c.pos(fi), "a partial operation is evaluated where it is not (yet) known to be defined: "+strings.Join(msgs, "; "))
